@@ -32,9 +32,14 @@ def _expand(hist: list) -> tuple:
     spec = _SPEC
     t = Tally()
     new = []
+    clone = getattr(spec, "clone", None)
     base = spec.build(hist)
     ops = spec.enabled(base, hist)
-    clone = getattr(spec, "clone", None)
+    # invariants already broken in the parent state are attributed to the operation that broke them
+    try:
+        inherited = {sig.get("invariant") for sig, _ in spec.check(clone(base) if getattr(spec, "clone", None) else spec.build(hist), hist)}
+    except Exception:
+        inherited = set()
     for op in ops:
         h2 = hist + [op]
         obj = clone(base) if clone else spec.build(hist)
@@ -47,7 +52,16 @@ def _expand(hist: list) -> tuple:
         t.traces += 1
         nt = spec.nontrivial(h2) if hasattr(spec, "nontrivial") else len(h2) > 2
         t.case(h2, nontrivial=nt, outcome=f"{op[0]}:{outcome}" if outcome is not None else str(op[0]), sample=h2 if len(h2) >= 3 else None)
-        for sig, msg in spec.check(obj, h2):
+        try:
+            found = spec.check(obj, h2)
+        except Exception as e:  # an oracle that cannot be evaluated is never a silent pass
+            import traceback
+
+            found = [({"invariant": "oracle-error", "op": op[0], "error": type(e).__name__}, traceback.format_exc())]
+        for sig, msg in found:
+            if sig.get("invariant") in inherited:
+                t.count("inherited_violations")
+                continue
             t.violation(sig, {"history": h2}, msg)
         new.append((digest(spec.canon(obj)), h2))
     return t, new
